@@ -19,7 +19,8 @@ INVS = {
 
 
 def input_classes(t: str):
-    durs = [2 * HU, 10 * HU, 47 * HU, 48 * HU] if t == "thorough" else [2 * HU, 47 * HU]
+    # 18 h: a window that fits into the first / last day of a month (noon +- 9 h), so strict ordering is demanded there
+    durs = [2 * HU, 10 * HU, 18 * HU, 47 * HU, 48 * HU] if t == "thorough" else [2 * HU, 18 * HU, 47 * HU]
     days = [0, 14, 27]
     out = []
     for pkc in (0, 1):
